@@ -253,7 +253,7 @@ func (ge *gen) ecdsa(oracle bool) Case {
 		return mk("ecdsa", "degenerate", oracle, pk, der(r, s), msg)
 	}
 	sig := der(r, s)
-	cls := g.Intn(37)
+	cls := g.Intn(39)
 	switch cls {
 	case 0, 1, 2, 3:
 		return mk("ecdsa", "valid", oracle, pk, sig, msg)
@@ -451,6 +451,34 @@ func (ge *gen) ecdsa(oracle bool) Case {
 		default: // 32 unsigned bytes, no pad
 			return mk("ecdsa", "small-s-plus-n", oracle, pk, derRaw(derInt(r), be32(sn)), be32(mm))
 		}
+	case 37, 38:
+		// algebraic triple with a SMALL r: take R = a point with tiny x (discrete log unknown), choose a, b and
+		// the key Q = b^-1 (R - aG); then u1 = a, u2 = b, i.e. r = x(R), s = r/b, m = a*s verify for Q.
+		// (r, s) is valid; (r+n, s) has r in [n, 2^256) and must be refused.
+		R0 := ge.smallX[g.Intn(len(ge.smallX))]
+		if g.Bool() {
+			R0 = refNeg(R0)
+		}
+		a, b := ge.scalar(), ge.scalar()
+		T := refAdd(R0, refNeg(refMul(a, refG())))
+		if T == nil || R0.x.Sign() == 0 {
+			return mk("ecdsa", "valid", oracle, pk, sig, msg)
+		}
+		binv := new(big.Int).ModInverse(b, refN)
+		Q2 := refMul(binv, T)
+		rs := new(big.Int).Set(R0.x)
+		s2 := new(big.Int).Mul(rs, binv)
+		s2.Mod(s2, refN)
+		m2 := new(big.Int).Mul(a, s2)
+		m2.Mod(m2, refN)
+		if Q2 == nil || s2.Sign() == 0 {
+			return mk("ecdsa", "valid", oracle, pk, sig, msg)
+		}
+		pk2 := serPub(Q2, g.Intn(3))
+		if cls == 37 {
+			return mk("ecdsa", "small-r-valid", oracle, pk2, der(rs, s2), be32(m2))
+		}
+		return mk("ecdsa", "small-r-plus-n", oracle, pk2, der(new(big.Int).Add(rs, refN), s2), be32(m2))
 	default: // random bytes everywhere
 		return mk("ecdsa", "random", oracle, g.Bytes(g.Pick(33, 65)), g.Bytes(8+g.Intn(70)), msg)
 	}
